@@ -188,6 +188,39 @@ class C03(Check):
                 self._judge(ds, root, sc, pre, post if sc != "create" else {}, wit, res, crashed)
                 shutil.rmtree(os.path.dirname(root), ignore_errors=True)
 
+    def _gc_only_leftovers(self, ds: Any, root: str, sig: str, wit: Dict[str, Any], res: CaseResult,
+                           state_rows: List[str]) -> bool:
+        from datashard.garbage_collector import GarbageCollector
+
+        obs = observe(root)
+        reach = set(obs["reach"])
+        tables.age_tree(root, 200000)
+        before = set(reader.Blobs.local(root).listing())
+        try:
+            t2 = ds.load_table(root)
+            GarbageCollector(t2.table_path, t2.metadata_manager, t2.file_manager).collect(0, 0)
+            res.count("gc_after_crash")
+        except Exception as e:  # noqa
+            res.violation(f"gc-fails-after-crash:{sig}", f"{type(e).__name__}: {str(e)[:200]}", wit)
+            return False
+        gone = before - set(reader.Blobs.local(root).listing())
+        res.count("leftovers_removed_by_gc", len([p for p in gone if not p.startswith(".locks/")]))
+        if gone & reach:
+            res.violation(f"gc-deleted-reachable-after-crash:{sig}", f"{sorted(gone & reach)[:3]}", wit)
+            return False
+        obs3 = observe(root)
+        if obs3.get("absent") or obs3.get("errors") or obs3.get("rows") != state_rows:
+            res.violation(f"gc-damaged-table-after-crash:{sig}", f"{obs3.get('errors') or obs3.get('error')}", wit)
+            return False
+        try:
+            if reader.canon_rows(ds.load_table(root).scan()) != state_rows:
+                res.violation(f"gc-damaged-table-after-crash:{sig}", "library scan differs after the collection", wit)
+                return False
+        except Exception as e:  # noqa
+            res.violation(f"gc-damaged-table-after-crash:{sig}", f"scan raises after the collection: {type(e).__name__}: {str(e)[:160]}", wit)
+            return False
+        return True
+
     def _judge(self, ds: Any, root: str, sc: str, pre: Dict[str, Any], post: Dict[str, Any], wit: Dict[str, Any],
                res: CaseResult, crashed: bool) -> None:
         sig = f"{sc}:{wit['variant']}"
@@ -246,8 +279,15 @@ class C03(Check):
         if lib != state_rows or rc != len(state_rows) or len(snaps) != obs["nsnap"]:
             res.violation(f"library-disagrees-after-crash:{sig}", f"library sees {len(lib)} rows / {len(snaps)} snapshots", wit)
             return
+        # (4a) a collection run straight after the crash - BEFORE any further commit rewrites the pointer -
+        # must delete nothing that the surviving state references (an uncommitted v(N+1) metadata file left
+        # by the dead operation must not be mistaken for the table's state)
+        ok = self._gc_only_leftovers(ds, root, sig + ":gc-first", wit, res, state_rows)
+        if not ok:
+            return
         # (3) follow-up append
         try:
+            t = ds.load_table(root)
             t.append_records(tables.rows([7777]))
             res.count("followup_appends")
             after = reader.canon_rows(ds.load_table(root).scan())
@@ -283,7 +323,6 @@ class C03(Check):
         if crashed and leftovers:
             res.key([sc, wit["prior"], wit["k"], wit["variant"]])
             res.count("crashes_with_leftovers")
-            res.count("leftovers_removed_by_gc", len([p for p in leftovers if p in gone]))
         if len(res.samples) < 2 and crashed and leftovers:
             res.sample({"scenario": sc, "prior_snapshots": wit["prior"], "crash_before_call": wit["crash"],
                         "variant": wit["variant"], "state": "post" if moved else "pre",
